@@ -65,15 +65,20 @@ theorem v6Payload_be16 (ip : Bytes) (i : Nat) (h : i + 1 < (v6Payload ip).length
 
 theorem v4Ihl_lt (ip : Bytes) : v4Ihl ip < 16 := by unfold v4Ihl; omega
 
-/-- What the quick decoder finds in an IPv4 packet the analyzer accepts. -/
+theorem v4PortOff_eq (ip : Bytes) : v4PortOff ip = v4PayloadStart ip := by
+  unfold v4PortOff v4PayloadStart; omega
+
+/-- What the quick decoder finds in an IPv4 packet the analyzer accepts: the ports where pnet
+places the TCP header. -/
 theorem extractV4_of_view (ip : Bytes) (hproto : v4Proto ip = 6) (hpl : 20 ≤ (v4Payload ip).length) :
     extractV4 ip = some ⟨.v4, slice ip 12 4, slice ip 16 4,
-      be16 ip (v4Ihl ip * 4), be16 ip (v4Ihl ip * 4 + 2)⟩ := by
+      be16 ip (v4PayloadStart ip), be16 ip (v4PayloadStart ip + 2)⟩ := by
   have hl := v4Payload_length ip
   have := v4Ihl_lt ip
-  unfold v4PayloadStart at hl
   unfold v4Proto at hproto
   unfold extractV4
+  rw [v4PortOff_eq]
+  unfold v4PayloadStart at hl ⊢
   rw [if_neg (by omega), if_neg (by omega), if_neg (by omega)]
 
 theorem extractV6_of_view (ip : Bytes) (hproto : v6NextHeader ip = 6) (hpl : 20 ≤ (v6Payload ip).length) :
@@ -172,16 +177,20 @@ theorem tryRawIp_some (p : Bytes) (l : Located) (h : tryRawIp p = some l) :
 
 theorem tryNull_some (p : Bytes) (l : Located) (h : tryNull p = some l) :
     24 ≤ p.length ∧ byte p 0 = 0x1e ∧ byte p 1 = 0 ∧
-    (l = ⟨.null, .v4, p.drop 4⟩ ∨ l = ⟨.null, .v6, p.drop 4⟩) := by
+    ((l = ⟨.null, .v4, p.drop 4⟩ ∧ byte p 4 / 16 = 4) ∨
+     (l = ⟨.null, .v6, p.drop 4⟩ ∧ byte p 4 / 16 ≠ 4 ∧ byte p 4 / 16 = 6)) := by
   unfold tryNull at h
   split at h; · simp at h
   rename_i hc
   refine ⟨by omega, by omega, by omega, ?_⟩
+  rw [byte_drop] at h
   split at h
-  · left; simp at h; exact h.symm
-  · split at h
-    · split at h
-      · right; simp at h; exact h.symm
+  · rename_i h4; left; simp at h; exact ⟨h.symm, h4⟩
+  · rename_i h4
+    split at h
+    · rename_i h6
+      split at h
+      · right; simp at h; exact ⟨h.symm, h4, h6⟩
       · simp at h
     · simp at h
 
@@ -197,18 +206,6 @@ theorem View.ep_v6 (ip : Bytes) (fr : Framing) (hpl : 20 ≤ (v6Payload ip).leng
   simp [View.ep, Located.src, Located.dst, tcpSrcPort, tcpDstPort,
     v6Payload_be16 ip 0 (by omega), v6Payload_be16 ip 2 (by omega)]
 
-/-- ports found by the two decoders in an accepted IPv4 packet coincide iff … -/
-theorem v4_ports_iff (ip : Bytes) :
-    ((⟨.v4, slice ip 12 4, slice ip 16 4, be16 ip (v4Ihl ip * 4), be16 ip (v4Ihl ip * 4 + 2)⟩ : Ep) =
-      ⟨.v4, slice ip 12 4, slice ip 16 4, be16 ip (v4PayloadStart ip), be16 ip (v4PayloadStart ip + 2)⟩) ↔
-    (5 ≤ v4Ihl ip ∨ portsAt ip (v4Ihl ip * 4) = portsAt ip 20) := by
-  unfold v4PayloadStart portsAt
-  by_cases h : 5 ≤ v4Ihl ip
-  · have : 20 + (v4Ihl ip * 4 - 20) = v4Ihl ip * 4 := by omega
-    simp [h, this]
-  · have : 20 + (v4Ihl ip * 4 - 20) = 20 := by omega
-    simp [h, this]
-
 theorem baseView_some (p : Bytes) (v : View) (h : baseView p = some v) :
     ∃ l, parsePacket p = some l ∧ l.proto = 6 ∧ 20 ≤ l.payload.length ∧ v = ⟨l, l.payload⟩ := by
   unfold baseView at h
@@ -219,50 +216,40 @@ theorem baseView_some (p : Bytes) (v : View) (h : baseView p = some v) :
   simp at h
   exact ⟨l, hl, by omega, by omega, h.symm⟩
 
-/-- **Core of C15**: on a frame the analyzers accept, the filter's quick decoder finds the
-analyzer's endpoints exactly in the cases listed by `AgreesView`. -/
-theorem extract_eq_iff (p : Bytes) (v : View) (hb : baseView p = some v) :
-    rawFilterExtract p = some v.ep ↔ AgreesView p v := by
+/-- **Core of C15**: on every frame the analyzers accept, the filter's quick decoder finds exactly
+the analyzer's endpoints. -/
+theorem extract_eq (p : Bytes) (v : View) (hb : baseView p = some v) :
+    rawFilterExtract p = some v.ep := by
   obtain ⟨l, hl, hproto, hpl, rfl⟩ := baseView_some p v hb
   rcases parse_cases p l hl with he | ⟨he, hr⟩ | ⟨he, hr, hn⟩
   · -- Ethernet
     obtain ⟨h14, ⟨rfl, h8⟩ | ⟨rfl, h8, h6⟩⟩ := tryEthernet_some p l he
     · simp only [Located.proto, Located.payload] at hproto hpl
       have hx := extractV4_of_view _ hproto hpl
-      have : rawFilterExtract p = extractV4 (p.drop 14) := by
-        unfold rawFilterExtract rfEthernet
-        rw [if_neg (by omega), if_pos h8, hx]
-      rw [this, hx]
-      simp only [Located.payload, View.ep_v4 _ _ hpl, AgreesView]
-      rw [Option.some.injEq, v4_ports_iff]
+      unfold rawFilterExtract rfEthernet
+      rw [if_neg (by omega), if_pos h8, hx]
+      simp only [Located.payload, View.ep_v4 _ _ hpl]
     · simp only [Located.proto, Located.payload] at hproto hpl
       have hx := extractV6_of_view _ hproto hpl
-      have : rawFilterExtract p = extractV6 (p.drop 14) := by
-        unfold rawFilterExtract rfEthernet
-        rw [if_neg (by omega), if_neg h8, if_pos h6, hx]
-      rw [this, hx]
-      simp [Located.payload, View.ep_v6 _ _ hpl, AgreesView]
+      unfold rawFilterExtract rfEthernet
+      rw [if_neg (by omega), if_neg h8, if_pos h6, hx]
+      simp only [Located.payload, View.ep_v6 _ _ hpl]
   · -- raw IP
     have hre := rfEthernet_none p he
     obtain ⟨h20, ⟨rfl, h4⟩ | ⟨rfl, h4, h6⟩⟩ := tryRawIp_some p l hr
     · simp only [Located.proto, Located.payload] at hproto hpl
       have hx := extractV4_of_view _ hproto hpl
-      have : rawFilterExtract p = extractV4 p := by
-        unfold rawFilterExtract rfRawIp
-        rw [hre]; simp only []
-        rw [if_neg (by omega), if_pos h4, hx]
-      rw [this, hx]
-      simp only [Located.payload, View.ep_v4 _ _ hpl, AgreesView]
-      rw [Option.some.injEq, v4_ports_iff]
+      unfold rawFilterExtract rfRawIp
+      rw [hre]; simp only []
+      rw [if_neg (by omega), if_pos h4, hx]
+      simp only [Located.payload, View.ep_v4 _ _ hpl]
     · simp only [Located.proto, Located.payload] at hproto hpl
       have hx := extractV6_of_view _ hproto hpl
-      have : rawFilterExtract p = extractV6 p := by
-        unfold rawFilterExtract rfRawIp
-        rw [hre]; simp only []
-        rw [if_neg (by omega), if_neg h4, if_pos h6, hx]
-      rw [this, hx]
-      simp [Located.payload, View.ep_v6 _ _ hpl, AgreesView]
-  · -- NULL / loopback
+      unfold rawFilterExtract rfRawIp
+      rw [hre]; simp only []
+      rw [if_neg (by omega), if_neg h4, if_pos h6, hx]
+      simp only [Located.payload, View.ep_v6 _ _ hpl]
+  · -- NULL / loopback: the filter now reads the `1e 00` header as the parser does
     have hre := rfEthernet_none p he
     obtain ⟨h24, hb0, hb1, hl⟩ := tryNull_some p l hn
     have hrr : rfRawIp p = none := by
@@ -270,28 +257,16 @@ theorem extract_eq_iff (p : Bytes) (v : View) (hb : baseView p = some v) :
       rw [if_neg (by omega), if_neg (by omega), if_neg (by omega)]
     have hrf : rawFilterExtract p = rfNull p := by
       unfold rawFilterExtract; rw [hre, hrr]
-    have b2 := byte_lt p 2
-    have b3 := byte_lt p 3
-    rcases hl with rfl | rfl
-    · -- IPv4 behind `1e 00`: the filter can only come up with IPv6 endpoints, or nothing
-      simp only [AgreesView, iff_false]
-      rw [hrf]
-      unfold rfNull nullFamily
-      rw [if_neg (by omega), if_neg (by omega)]
-      split
-      · intro h
-        have := extractV6_ver _ _ h
-        simp [View.ep] at this
-      · simp
+    rw [hrf]
+    unfold rfNull
+    rw [if_neg (by omega), if_pos ⟨hb0, hb1, by omega⟩]
+    rcases hl with ⟨rfl, h4⟩ | ⟨rfl, h4, h6⟩
     · simp only [Located.proto, Located.payload] at hproto hpl
-      have hx := extractV6_of_view _ hproto hpl
-      simp only [AgreesView, Located.payload, View.ep_v6 _ _ hpl]
-      rw [hrf]
-      unfold rfNull nullFamily
-      rw [if_neg (by omega), if_neg (by omega)]
-      by_cases hz : byte p 2 = 0 ∧ byte p 3 = 0
-      · rw [if_pos (by omega), hx]; simp [hz]
-      · rw [if_neg (by omega)]; simp [hz]
+      rw [if_pos h4, extractV4_of_view _ hproto hpl]
+      simp only [Located.payload, View.ep_v4 _ _ hpl]
+    · simp only [Located.proto, Located.payload] at hproto hpl
+      rw [if_neg h4, if_pos h6, extractV6_of_view _ hproto hpl]
+      simp only [Located.payload, View.ep_v6 _ _ hpl]
 
 /-! ### hash inputs, given where the hashers look for the IP header -/
 
@@ -317,9 +292,9 @@ theorem hashTcp_v6 (p : Bytes) (off : Nat) (hs : ipStart p = off)
 
 theorem hashHttp_v4 (p : Bytes) (off : Nat) (hs : ipStart p = off)
     (hn : byte (p.drop off) 0 / 16 = 4) (hl : 40 ≤ (p.drop off).length)
-    (hp : byte (p.drop off) 9 = 6) (hlen : v4Ihl (p.drop off) * 4 + 4 ≤ (p.drop off).length) :
+    (hp : byte (p.drop off) 9 = 6) (hlen : v4PortOff (p.drop off) + 4 ≤ (p.drop off).length) :
     hashInputHttp p = canonFlow (slice (p.drop off) 12 4) (slice (p.drop off) 16 4)
-      (be16 (p.drop off) (v4Ihl (p.drop off) * 4)) (be16 (p.drop off) (v4Ihl (p.drop off) * 4 + 2)) := by
+      (be16 (p.drop off) (v4PortOff (p.drop off))) (be16 (p.drop off) (v4PortOff (p.drop off) + 2)) := by
   unfold hashInputHttp
   rw [hs]
   have hl' := hl
@@ -346,9 +321,9 @@ theorem hashHttp_v6 (p : Bytes) (off : Nat) (hs : ipStart p = off)
 
 theorem hashTls_v4 (p : Bytes) (off : Nat) (hs : ipStart p = off)
     (hn : byte (p.drop off) 0 / 16 = 4) (hl : 40 ≤ (p.drop off).length)
-    (hp : byte (p.drop off) 9 = 6) (hlen : v4Ihl (p.drop off) * 4 + 4 ≤ (p.drop off).length) :
+    (hp : byte (p.drop off) 9 = 6) (hlen : v4PortOff (p.drop off) + 4 ≤ (p.drop off).length) :
     hashInputTls p = some (.flow (slice (p.drop off) 12 4) (slice (p.drop off) 16 4)
-      (be16 (p.drop off) (v4Ihl (p.drop off) * 4)) (be16 (p.drop off) (v4Ihl (p.drop off) * 4 + 2))) := by
+      (be16 (p.drop off) (v4PortOff (p.drop off))) (be16 (p.drop off) (v4PortOff (p.drop off) + 2))) := by
   unfold hashInputTls
   rw [hs]
   have hl' := hl
@@ -450,13 +425,14 @@ theorem seen_locate (p : Bytes) (v : View) (hb : baseView p = some v)
         simp only [KF.C18.looksLikeEthernet] at h1
         cases h : looksEth p <;> simp_all
       exact ⟨by simp [ipStart, hle], h6⟩
-  · obtain ⟨_, _, _, rfl | rfl⟩ := tryNull_some p l hn <;> simp [KF.C18.nullFraming] at h2
+  · obtain ⟨_, _, _, ⟨rfl, _⟩ | ⟨rfl, _⟩⟩ := tryNull_some p l hn <;> simp [KF.C18.nullFraming] at h2
 
 /-- What an accepted view guarantees about the IP packet (the hashers' length tests pass). -/
 theorem view_v4_facts (ip : Bytes) (hproto : v4Proto ip = 6) (hpl : 20 ≤ (v4Payload ip).length) :
-    40 ≤ ip.length ∧ byte ip 9 = 6 ∧ v4Ihl ip * 4 + 4 ≤ ip.length := by
+    40 ≤ ip.length ∧ byte ip 9 = 6 ∧ v4PortOff ip + 4 ≤ ip.length := by
+  rw [v4PortOff_eq]
   have hl := v4Payload_length ip
-  unfold v4PayloadStart at hl
+  unfold v4PayloadStart at hl ⊢
   unfold v4Proto at hproto
   omega
 
@@ -479,9 +455,9 @@ theorem analyzerView_base (a : Analyzer) (p : Bytes) (v : View) (h : analyzerVie
 
 /-- TCP hasher on an accepted frame outside the classes: the analyzer's source address. -/
 theorem hashInputTcp_seen (a : Analyzer) (p : Bytes) (v : View) (hv : analyzerView a p = some v)
-    (hk : ¬ KF.C18.seen a false p) : hashInputTcp p = .bytes v.loc.src := by
+    (hk : ¬ KF.C18.seen a p) : hashInputTcp p = .bytes v.loc.src := by
   have hb := analyzerView_base a p v hv
-  simp only [KF.C18.seen, hv, Bool.false_eq_true, false_and, or_false, not_or] at hk
+  simp only [KF.C18.seen, hv, not_or] at hk
   obtain ⟨hip, hnib⟩ := seen_locate p v hb hk.1 hk.2.1 hk.2.2
   obtain ⟨l, _, hproto, hpl, rfl⟩ := baseView_some p v hb
   obtain ⟨fr, ver, ip⟩ := l
@@ -498,21 +474,18 @@ theorem hashInputTcp_seen (a : Analyzer) (p : Bytes) (v : View) (hv : analyzerVi
     subst hip
     simpa [Located.src] using hashTcp_v6 p (ipStart p) rfl hnib (by omega)
 
-/-- the ports the hashers read are the analyzer's when IHL ≥ 5 -/
-theorem ep_of_view_v4 (fr : Framing) (ip : Bytes) (hpl : 20 ≤ (v4Payload ip).length)
-    (h5 : ¬ v4Ihl ip < 5) :
+/-- the ports the hashers read are the analyzer's (both at `max(ihl*4, 20)`) -/
+theorem ep_of_view_v4 (fr : Framing) (ip : Bytes) (hpl : 20 ≤ (v4Payload ip).length) :
     (View.mk ⟨fr, .v4, ip⟩ (v4Payload ip)).ep =
-      ⟨.v4, slice ip 12 4, slice ip 16 4, be16 ip (v4Ihl ip * 4), be16 ip (v4Ihl ip * 4 + 2)⟩ := by
-  rw [View.ep_v4 ip fr hpl]
-  have : v4PayloadStart ip = v4Ihl ip * 4 := by unfold v4PayloadStart; omega
-  rw [this]
+      ⟨.v4, slice ip 12 4, slice ip 16 4, be16 ip (v4PortOff ip), be16 ip (v4PortOff ip + 2)⟩ := by
+  rw [View.ep_v4 ip fr hpl, v4PortOff_eq]
 
 theorem hashInputHttp_seen (a : Analyzer) (p : Bytes) (v : View) (hv : analyzerView a p = some v)
-    (hk : ¬ KF.C18.seen a true p) :
+    (hk : ¬ KF.C18.seen a p) :
     hashInputHttp p = canonFlow v.ep.src v.ep.dst v.ep.sp v.ep.dp := by
   have hb := analyzerView_base a p v hv
-  simp only [KF.C18.seen, hv, true_and, not_or] at hk
-  obtain ⟨hip, hnib⟩ := seen_locate p v hb hk.1 hk.2.1 hk.2.2.1
+  simp only [KF.C18.seen, hv, not_or] at hk
+  obtain ⟨hip, hnib⟩ := seen_locate p v hb hk.1 hk.2.1 hk.2.2
   obtain ⟨l, _, hproto, hpl, rfl⟩ := baseView_some p v hb
   obtain ⟨fr, ver, ip⟩ := l
   simp only at hip hnib
@@ -520,10 +493,8 @@ theorem hashInputHttp_seen (a : Analyzer) (p : Bytes) (v : View) (hv : analyzerV
   | v4 =>
     simp only [Located.proto, Located.payload] at hproto hpl
     obtain ⟨h40, hp6, hlen⟩ := view_v4_facts ip hproto hpl
-    have h5 : ¬ v4Ihl ip < 5 := by
-      have := hk.2.2.2; simp only [KF.C18.ihlBelow5, true_and] at this; exact this
     simp only [Located.payload]
-    rw [ep_of_view_v4 fr ip hpl h5]
+    rw [ep_of_view_v4 fr ip hpl]
     subst hip
     exact hashHttp_v4 p (ipStart p) rfl hnib h40 hp6 hlen
   | v6 =>
@@ -535,11 +506,11 @@ theorem hashInputHttp_seen (a : Analyzer) (p : Bytes) (v : View) (hv : analyzerV
     exact hashHttp_v6 p (ipStart p) rfl hnib (by omega) hp6
 
 theorem hashInputTls_seen (a : Analyzer) (p : Bytes) (v : View) (hv : analyzerView a p = some v)
-    (hk : ¬ KF.C18.seen a true p) :
+    (hk : ¬ KF.C18.seen a p) :
     hashInputTls p = some (.flow v.ep.src v.ep.dst v.ep.sp v.ep.dp) := by
   have hb := analyzerView_base a p v hv
-  simp only [KF.C18.seen, hv, true_and, not_or] at hk
-  obtain ⟨hip, hnib⟩ := seen_locate p v hb hk.1 hk.2.1 hk.2.2.1
+  simp only [KF.C18.seen, hv, not_or] at hk
+  obtain ⟨hip, hnib⟩ := seen_locate p v hb hk.1 hk.2.1 hk.2.2
   obtain ⟨l, _, hproto, hpl, rfl⟩ := baseView_some p v hb
   obtain ⟨fr, ver, ip⟩ := l
   simp only at hip hnib
@@ -547,10 +518,8 @@ theorem hashInputTls_seen (a : Analyzer) (p : Bytes) (v : View) (hv : analyzerVi
   | v4 =>
     simp only [Located.proto, Located.payload] at hproto hpl
     obtain ⟨h40, hp6, hlen⟩ := view_v4_facts ip hproto hpl
-    have h5 : ¬ v4Ihl ip < 5 := by
-      have := hk.2.2.2; simp only [KF.C18.ihlBelow5, true_and] at this; exact this
     simp only [Located.payload]
-    rw [ep_of_view_v4 fr ip hpl h5]
+    rw [ep_of_view_v4 fr ip hpl]
     subst hip
     exact hashTls_v4 p (ipStart p) rfl hnib h40 hp6 hlen
   | v6 =>
@@ -629,7 +598,11 @@ theorem hashInputHttp_wire (fr : Framing) (p : Bytes) (e : Ep) (hw : wireEndpoin
     (hk : ¬ KF.C18.wire fr p) : hashInputHttp p = canonFlow e.src e.dst e.sp e.dp := by
   rcases wire_locate fr p e hw hk with h | h
   · obtain ⟨hn, h5, hlen, hp, rfl⟩ := wireV4_some _ _ h
-    exact hashHttp_v4 p (ipStart p) rfl hn (by omega) hp (by omega)
+    have hoff : v4PortOff (p.drop (ipStart p)) = v4Ihl (p.drop (ipStart p)) * 4 := by
+      unfold v4PortOff; omega
+    have := hashHttp_v4 p (ipStart p) rfl hn (by omega) hp (by omega)
+    rw [hoff] at this
+    exact this
   · obtain ⟨hn, hlen, hp, rfl⟩ := wireV6_some _ _ h
     exact hashHttp_v6 p (ipStart p) rfl hn (by omega) hp
 
@@ -637,7 +610,11 @@ theorem hashInputTls_wire (fr : Framing) (p : Bytes) (e : Ep) (hw : wireEndpoint
     (hk : ¬ KF.C18.wire fr p) : hashInputTls p = some (.flow e.src e.dst e.sp e.dp) := by
   rcases wire_locate fr p e hw hk with h | h
   · obtain ⟨hn, h5, hlen, hp, rfl⟩ := wireV4_some _ _ h
-    exact hashTls_v4 p (ipStart p) rfl hn (by omega) hp (by omega)
+    have hoff : v4PortOff (p.drop (ipStart p)) = v4Ihl (p.drop (ipStart p)) * 4 := by
+      unfold v4PortOff; omega
+    have := hashTls_v4 p (ipStart p) rfl hn (by omega) hp (by omega)
+    rw [hoff] at this
+    exact this
   · obtain ⟨hn, hlen, hp, rfl⟩ := wireV6_some _ _ h
     exact hashTls_v6 p (ipStart p) rfl hn (by omega) hp
 
@@ -764,9 +741,13 @@ theorem rawFilterExtract_lengths (p : Bytes) (e : Ep) (h : rawFilterExtract p = 
       simp at he
     · unfold rfNull at h
       split at h; · simp at h
-      split at h; · exact key _ (Or.inl h)
-      split at h; · exact key _ (Or.inr h)
-      simp at h
+      split at h
+      · split at h; · exact key _ (Or.inl h)
+        split at h; · exact key _ (Or.inr h)
+        simp at h
+      · split at h; · exact key _ (Or.inl h)
+        split at h; · exact key _ (Or.inr h)
+        simp at h
 
 open Huginn.Filter in
 section
